@@ -27,6 +27,7 @@ import ECAgent.Batching as Batching
 from ECAgent.Collectors import Collector, AgentCollector
 
 KINDS = ['plain', 'grid', 'space']
+CROWD = 600          # more agents than any small-scope threshold a fast path might use
 
 META = {
     'rule': 'every multiset permutation of the atoms of 2-3 models (build, step, ...) and the perturbation atoms; one '
@@ -106,7 +107,7 @@ class Gift(Core.System):
     def _add(self, a):
         m = self.model
         env = m.environment
-        if m.kind == 'plain':
+        if m.kind in ('plain', 'crowd'):
             env.add_agent(a)
         elif m.kind == 'grid':
             env.add_agent(a, m.random.randrange(env.width), m.random.randrange(env.height))
@@ -114,13 +115,21 @@ class Gift(Core.System):
             env.add_agent(a, m.random.uniform(0, env.width), m.random.uniform(0, env.height))
 
 
+class Boot(Core.System):
+    """One-shot system: runs once, then removes itself (so the scheduler's removal path is part of every run)."""
+
+    def execute(self):
+        self.model.systems['trace'].records.append(('exec', self.id, self.model.systems.timestep))
+        self.clean_up()
+
+
 class Walk(Core.System):
     def execute(self):
         m = self.model
         env = m.environment
         tr = m.systems['trace'].records
-        tr.append(('exec', self.id, m.systems.timestep))
-        if m.kind == 'plain':
+        tr.append(('exec', self.id, m.systems.timestep, m.random.random()))     # draws even in the plain model
+        if m.kind in ('plain', 'crowd'):
             return
         for a in env.shuffle():
             if m.kind == 'grid':
@@ -138,6 +147,8 @@ class SModel(Core.Model):
     def __init__(self, kind='plain', seed=1, n=5, horizon=None):
         super().__init__(seed=seed)
         self.kind = kind
+        if kind == 'crowd':
+            n = CROWD
         self.born = 0
         self.horizon = horizon
         if kind == 'grid':
@@ -145,8 +156,9 @@ class SModel(Core.Model):
         elif kind == 'space':
             self.environment = Envs.SpaceWorld(self, 10.0, 8.0, wrap_env=True)
         self.systems.add_system(Trace('trace', self))
+        self.systems.add_system(Boot('boot', self, priority=3))
         self.systems.add_system(Gift('gift', self, priority=2))
-        self.systems.add_system(Walk('walk', self, priority=1))
+        self.systems.add_system(Walk('walk', self, priority=2))      # same priority as gift: registration order decides
         self.systems.add_system(AgentCollector(self, lambda a: a[Wealth].w, lambda agents: {'n': len(agents)}, True))
         gift = self.systems['gift']
         for i in range(n):
@@ -416,8 +428,8 @@ def run(ctx):
     a, b = solo('plain', ctx.seed * 1000 + 1, 3), solo('plain', ctx.seed * 1000 + 2, 3)
     if a == b:
         raise hbfs.HarnessError('scripted models are not seed-sensitive')
-    for kind in KINDS:
-        case = {'leg': 'repeat', 'kind': kind, 'seed': ctx.seed * 1000 + 1, 'steps': 3}
+    for kind in KINDS + ['crowd']:
+        case = {'leg': 'repeat', 'kind': kind, 'seed': ctx.seed * 1000 + 1, 'steps': 3 if kind != 'crowd' else 1}
         ctx.traces += 2
         try:
             hbfs._guard(repeat_case, case)
@@ -438,15 +450,50 @@ def run(ctx):
     ctx.sample(mc[-1])
 
 
-def repeat_case(case):
-    """The same model code with the same seed, run twice in one process with ambient draws in between."""
-    first = solo(case['kind'], case['seed'], case['steps'])
+REPEAT_CHILD = r'''
+import json, sys
+sys.path.insert(0, sys.argv[1]); sys.path.insert(0, sys.argv[2])
+import mc.props.c07 as c07
+print(json.dumps(c07.repeat_in_process(sys.argv[3], int(sys.argv[4]), int(sys.argv[5]))))
+'''
+
+
+def repeat_in_process(kind, seed, steps):
+    """The same model code with the same seed, run twice in this process with ambient draws and other models built,
+    stepped and discarded in between (different heap layout for the second run)."""
+    first = solo(kind, seed, steps)
     random.random()
     np.random.rand()
-    second = solo(case['kind'], case['seed'], case['steps'])
+    junk = [SModel('grid', 500 + i, n=3) for i in range(4)]
+    for j in junk:
+        for k in range(6):
+            j.systems.add_system(Boot(f'extra{k}', j, priority=k % 3))
+        j.execute()
+    keep = junk[1::2]
+    del junk
+    second = solo(kind, seed, steps)
+    del keep
+    return [first, second]
+
+
+def repeat_case(case):
+    # run in a fresh interpreter: what the second run sees (heap layout, global generator state) is then the same
+    # every time this case is executed, so a violation replays identically
+    tree = os.path.dirname(os.path.dirname(os.path.abspath(Core.__file__)))
+    verif = os.path.dirname(os.path.dirname(os.path.dirname(os.path.abspath(__file__))))
+    env = dict(os.environ, PYTHONHASHSEED='0')
+    r = subprocess.run([sys.executable, '-c', REPEAT_CHILD, tree, verif, case['kind'], str(case['seed']),
+                        str(case['steps'])], capture_output=True, text=True, env=env, timeout=600)
+    if r.returncode != 0:
+        raise Violation('child process of the repeat leg failed', observed=(r.stderr.strip().splitlines() or [''])[-1])
+    first, second = json.loads(r.stdout.strip().splitlines()[-1])
     if first != second:
         raise Violation(f'two runs of the {case["kind"]} model with seed {case["seed"]} in one process gave different '
                         f'trajectories', expected=first, observed=second)
+    if first != solo(case['kind'], case['seed'], case['steps']):
+        raise Violation(f'the {case["kind"]} model with seed {case["seed"]} gave another trajectory in a fresh '
+                        f'interpreter than in this process', expected=solo(case['kind'], case['seed'], case['steps']),
+                        observed=first)
 
 
 def replay(case):
